@@ -28,8 +28,8 @@ func init() {
 				n = 25000
 			}
 			return fw.Meta{N: n, Level: "exploration", Chunk: 5, CaseTimeoutS: 240, MinNT: 80,
-				Rule:        "one case = one lineage: 3..8 tables built through forced rotations with controlled size classes (tiny / ~1 KiB / ~4 KiB) and tombstone ratios (0 / some / mostly), including tombstones in newer tables over values in older, larger ones and overwrites across tables; one lineage in eight sits on top of a legacy-format fixture table (no metadata, reports 0 records); compaction settings (max size {1,300,1000,3000,huge} x ratio {0,0.2,0.5,1} x threshold {0,1,2}) redrawn at every reopen so that prefix / suffix / middle-run / everything / nothing selections occur; around EVERY compaction cycle all keys are read before and after (must be identical and equal to the model), the returned selection must be a contiguous run of the live tables in age order and the live list afterwards must be the old list with that run collapsed into one table in place; then more writes, cycles and reopens. Non-trivial: a cycle merged >=2 tables while excluding the oldest live table, or merged tables holding tombstones; distinct by lineage hash",
-				MinObs:      map[string]int64{"cycles_checked": 800, "cycles_that_merged": 300, "cycles_excluding_oldest": 30, "cycles_selecting_middle_run": 8, "tombstone_shadowing_older_value": 300, "reads_compared": 30000, "reopens": 200},
+				Rule:        "one case = one lineage: 3..8 tables built through forced rotations with controlled size classes (tiny / ~1 KiB / ~4 KiB) and tombstone ratios (0 / some / mostly), including tombstones in newer tables over values in older, larger ones and overwrites across tables; one lineage in eight sits on top of a legacy-format fixture table (no metadata, reports 0 records); compaction settings (max size {1,300,1000,3000,huge} x ratio {0,0.2,0.5,1} x threshold {0,1,2}) redrawn at every reopen so that prefix / suffix / middle-run / everything / nothing selections occur; around EVERY compaction cycle all keys are read before and after (must be identical and equal to the model), the returned selection must be a contiguous run of the live tables in age order and the live list afterwards must be the old list with that run collapsed into one table in place; then more writes, cycles and reopens. Non-trivial: a cycle merged >=2 tables while excluding the oldest live table, or merged tables holding tombstones; distinct by lineage hash One lineage in a hundred carries a value of 1..2 MiB in every table.",
+				MinObs:      map[string]int64{"values_of_a_mebibyte_or_more_sent_through_compactions": 5, "cycles_checked": 800, "cycles_that_merged": 300, "cycles_excluding_oldest": 30, "cycles_selecting_middle_run": 8, "tombstone_shadowing_older_value": 300, "reads_compared": 30000, "reopens": 200},
 				Assumptions: []string{"only the gap-free-run requirement of the selection is judged, not the selection policy itself"},
 			}
 		},
